@@ -71,20 +71,18 @@ def scan(prj: Project, state: State, q: str = "codelimit.commands.scan:scan_comm
                 return Sym("now", _open=True)
         if kind == "call" and isinstance(f, tuple) and f and f[0] == "method" and isinstance(f[1], Sym) and f[1].name.startswith("now"):
             return "generated-timestamp"
-        if kind == "call" and isinstance(f, BoundFunc) and f.fi.qual.endswith(":scan_file") and args:
-            # the measuring stub: functions whose lengths depend on the file that was lexed
-            name = str(getattr(args[0][0], "name", "")) if isinstance(args[0], list) and args[0] else ""
-            for fn, vals in LENGTHS.items():
-                if name.endswith("/" + fn):
-                    M = prj.cls("codelimit.common.Measurement:Measurement")
-                    L = prj.cls("codelimit.common.Location:Location")
-                    out = []
-                    for i, v in enumerate(vals):
-                        out.append(it.construct(M, [f"{fn}:f{i}", it.construct(L, [10 * i + 1, 1], {}, None, f.fi),
-                                                    it.construct(L, [10 * i + v, 2], {}, None, f.fi), v], {}, None, f.fi))
-                    return out
-            raise Unknown(f"measuring stub: unknown token list {name!r}")
         return inner(it, kind, f, args, kwargs, node, cur)
+
+    def measure(it, f, path):
+        # the measuring stub: functions whose lengths depend on the file that was lexed
+        for fn, vals in LENGTHS.items():
+            if path.endswith("/" + fn):
+                M = prj.cls("codelimit.common.Measurement:Measurement")
+                L = prj.cls("codelimit.common.Location:Location")
+                return [it.construct(M, [f"{fn}:f{i}", it.construct(L, [10 * i + 1, 1], {}, None, f.fi),
+                                         it.construct(L, [10 * i + v, 2], {}, None, f.fi), v], {}, None, f.fi) for i, v in enumerate(vals)]
+        raise Unknown(f"measuring stub: unknown file {path!r}")
+    lab.measure_by_path = measure
     lab.hook = hook
     out = Outcome()
     it = MiniInterp(prj, hook, max_steps=3_000_000, max_depth=80)
@@ -115,6 +113,16 @@ def crash_states(before: State, ops: list, stride: int = 1):
                     if n < len(data):
                         out.append((f"op {i + 1}/{len(ops)} write {a.rsplit('/', 1)[-1]} cut after {n} of {len(data)} characters", cur.with_file(a, base + data[:n])))
                 cur = cur.with_file(a, base + data)
+        elif op[0] == "overwrite":
+            _, a, pos, data = op
+            old = cur.texts.get(a, "")
+            if isinstance(data, str):
+                cuts = sorted(set(range(0, len(data), stride)) | {0, max(len(data) - 1, 0)} | set(range(max(len(data) - 3, 0), len(data))))
+                for n in cuts:
+                    if n < len(data):
+                        out.append((f"op {i + 1}/{len(ops)} in-place write of {a.rsplit('/', 1)[-1]} cut after {n} of {len(data)} characters",
+                                    cur.with_file(a, old[:pos] + data[:n] + old[pos + n:])))
+                cur = cur.with_file(a, old[:pos] + data + old[pos + len(data):])
         elif op[0] == "mkdir":
             a = op[1]
             d, n = a.rsplit("/", 1)
